@@ -282,6 +282,22 @@ def _worker(args):
     str_family("crypto_pwhash_str_alg_argon2i", lambda st: lib.crypto_pwhash_str_alg(st, pw8, ull(8), ull(3), sz(32 * 1024), ALG_I), lib.crypto_pwhash_str_verify, lib.crypto_pwhash_str_needs_rehash, 3, 32, "argon2i", generic=True)
     str_family("crypto_pwhash_argon2id", lambda st: lib.crypto_pwhash_argon2id_str(st, pw8, ull(8), ull(1), sz(8 * 1024)), lib.crypto_pwhash_argon2id_str_verify, lib.crypto_pwhash_argon2id_str_needs_rehash, 1, 8, "argon2id")
     str_family("crypto_pwhash_argon2i", lambda st: lib.crypto_pwhash_argon2i_str(st, pw8, ull(8), ull(3), sz(9 * 1024)), lib.crypto_pwhash_argon2i_str_verify, lib.crypto_pwhash_argon2i_str_needs_rehash, 3, 9, "argon2i")
+
+    # needs_rehash over the whole documented parameter range (it only parses, so strings with huge cost parameters are free to judge): the
+    # string's (t, m) against requested (opslimit, memlimit) on a grid that includes 4 GiB (2^22 KiB), 2^32-1 KiB and 2^32-1 passes
+    grid = [(3, 8), (3, 9), (4, 8), (3, 4194303), (3, 4194304), (5, 4194305), (3, (1 << 32) - 1), ((1 << 32) - 1, 8), ((1 << 32) - 1, (1 << 32) - 1), (65536, 65536)]
+    fake_salt = bytes(range(16)); fake_hash = bytes(range(32))
+    for typ, fns in (("argon2id", (lib.crypto_pwhash_str_needs_rehash, lib.crypto_pwhash_argon2id_str_needs_rehash)), ("argon2i", (lib.crypto_pwhash_str_needs_rehash, lib.crypto_pwhash_argon2i_str_needs_rehash))):
+        for (ts, ms) in grid:
+            sbuf = ctypes.create_string_buffer(ps.argon2_encode(typ, ts, ms, 1, fake_salt, fake_hash).encode())
+            for (tr, mr) in grid:
+                for extra in (0, 1023):
+                    want = 0 if (ts == tr and ms == mr) else 1
+                    for fi, fn in enumerate(fns):
+                        n += 1
+                        got = fn(sbuf, ull(tr), sz(mr * 1024 + extra))
+                        if got != want:
+                            fails.append(("crypto_pwhash%s_str_needs_rehash/%s/%s/string=t%d,m%d/request=t%d,m%dKiB+%d" % ("" if fi == 0 else "_" + typ, tag, typ, ts, ms, tr, mr, extra), "returned %d, want %d" % (got, want)))
     if cfg in ("", configs.NONE):
         str_family("crypto_pwhash_scryptsalsa208sha256", lambda st: lib.crypto_pwhash_scryptsalsa208sha256_str(st, pw8, ull(8), ull(32768), sz(16777216)),
                    lib.crypto_pwhash_scryptsalsa208sha256_str_verify, lib.crypto_pwhash_scryptsalsa208sha256_str_needs_rehash, 0, 0, None, is_scrypt=True)
